@@ -1,5 +1,5 @@
 #!/usr/bin/env python3
-"""harmless_run.py [hNN ...] [--all-props]
+"""harmless_run.py [hNN ...] [--all-props | --props=C11,C17]
 
 Measures false alarms on behaviour-preserving rewrites of /repo (harmless/hNN/patch.diff, written by an independent
 sub-agent that verified before/after outputs bit for bit): each patch is applied in a scratch worktree of /repo (never in
@@ -31,6 +31,9 @@ for h in names:
     patch = open(os.path.join(d, 'patch.diff')).read()
     files = re.findall(r'^\+\+\+ b/(\S+)', patch, flags=re.M)
     props = allp if '--all-props' in sys.argv else sorted({p for f in files for p in fmap.get(f, [])})
+    only = [a.split('=', 1)[1].split(',') for a in sys.argv if a.startswith('--props=')]
+    if only:
+        props = [p for p in props if p in only[0]]
     subprocess.run(['git', '-C', '/repo', 'worktree', 'remove', '--force', wt], capture_output=True)
     subprocess.run(['git', '-C', '/repo', 'worktree', 'add', '--detach', wt, 'HEAD'], capture_output=True, check=True)
     res = {'files': files, 'repo_head': subprocess.run(['git', '-C', '/repo', 'rev-parse', '--short', 'HEAD'],
@@ -53,4 +56,10 @@ for h in names:
     finally:
         subprocess.run(['/venv/bin/python', 'harness/py2lean.py'], cwd=V, capture_output=True)   # Gen/ back to /repo
         subprocess.run(['git', '-C', '/repo', 'worktree', 'remove', '--force', wt], capture_output=True)
-    json.dump(res, open(os.path.join(d, 'result.json'), 'w'), indent=1)
+    old = os.path.join(d, 'result.json')
+    if only and os.path.exists(old):          # a partial run updates the record of the properties it ran
+        prev = json.load(open(old))
+        prev['checks'].update(res['checks'])
+        prev['repo_head'] = res['repo_head']
+        res = prev
+    json.dump(res, open(old, 'w'), indent=1)
